@@ -210,7 +210,10 @@ Definition store_step (s : st) (i : N) : st :=
    A callback that started on a closed committer returns an error whatever the environment says. *)
 Definition complete (s : st) (o : bool) : st :=
   if inflight s then
-    let eff := o && negb (closed s) in
+    (* handleSingleBatch refuses every batch while no primary is chosen ("primary key should be set before pipelined flush"):
+       a non-empty generation without any lock-writing mutation, flushed before a primary exists, fails whatever the store says *)
+    let noprim := is_nil (primary s) && match flushing s with Some (_, fb) => negb (is_nil fb) | None => false end in
+    let eff := o && negb (closed s) && negb noprim in
     {| mem := mem s; stages := stages s; flushing := flushing s; inflight := false; pending := Some eff;
        store := (if eff then match flushing s with Some (_, fb) => overlay (lockable fb (fpne s)) (store s) | None => store s end else store s);
        cache := cache s; gen := gen s; flen := flen s; fsize := fsize s; closed := closed s || negb eff;
